@@ -48,12 +48,8 @@ def commit_rules(ctx: Ctx, top: Func, rule: str) -> None:
         else:
             rep.ok(rule, top.qname, "exactly one path commit, outside loops", top.loc(sc))
         # the committed mapping is the complete map of the evaluation
-        req = None
-        for n in top.own_nodes():
-            if isinstance(n, ast.Call) and isinstance(n.func, ast.Attribute) and n.func.attr == "_replace":
-                for k in n.keywords:
-                    if k.arg == "requested_paths":
-                        req = k.value
+        from .common import path_map_value
+        req = path_map_value(top)
         arg = sc.args[0] if sc.args else None
         desc = "the committed mapping is the evaluation's complete path map (the value assigned to requested_paths)"
         if req is None or arg is None:
@@ -170,6 +166,10 @@ def run(ctx: Ctx) -> None:
     passthrough_rules(ctx, "C04.R3", only=["sync_paths", "fetch_paths"])
     rep.rule("C04.R5", "as C12.R1: the object cache holds a key only with evidence that the wrapped store holds it (else a path is committed to a key without blob)")
     insertion_rule(ctx, "C04.R5")
+    from .c17 import codec_duals
+    rep.rule("C04.R6", "as C17.R4/R5: every codec reads back what it wrote (binary mode, same encoding, dual operations): the value a committed path "
+                       "serves equals the value keep returned")
+    codec_duals(ctx, "C04.R6", "C04.R6")
     mem = prog.classes.get("dds.store.MemoryStore")
     if mem is not None and "sync_paths" in mem.methods and "fetch_paths" in mem.methods:
         w = _dict_attr(mem.methods["sync_paths"], store=True)
